@@ -45,7 +45,7 @@ fn uvalid(x: i128) -> bool {
     x >= 0 && x <= u64::MAX as i128
 }
 
-fn addr_ops(c: &(u64, u64, u64, u64), obs: &mut Obs) -> CaseResult {
+pub fn addr_ops(c: &(u64, u64, u64, u64), obs: &mut Obs) -> CaseResult {
     let (v, p, k, other) = *c;
     let va = VirtAddr::new(v);
     let pa = PhysAddr::new(p);
@@ -126,7 +126,7 @@ fn page_ops_s<S: PageSize>(v: u64, p: u64, k: u64, other: u64, obs: &mut Obs) ->
     Ok(())
 }
 
-fn page_ops(c: &(u8, u64, u64, u64, u64), obs: &mut Obs) -> CaseResult {
+pub fn page_ops(c: &(u8, u64, u64, u64, u64), obs: &mut Obs) -> CaseResult {
     let (s, v, p, k, o) = *c;
     match s % 3 {
         0 => page_ops_s::<Size4KiB>(v, p, k, o, obs),
@@ -154,7 +154,7 @@ pub struct RangeCase {
     pub inverted_by: u8,
 }
 
-fn range_case() -> impl Strategy<Value = RangeCase> {
+pub fn range_case() -> impl Strategy<Value = RangeCase> {
     (
         size_sel(),
         0u8..3,
@@ -231,7 +231,7 @@ fn run_frame_range<S: PageSize>(start: u64, end: u64, inclusive: bool, cap: usiz
     }
 }
 
-fn ranges(c: &RangeCase, obs: &mut Obs) -> CaseResult {
+pub fn ranges(c: &RangeCase, obs: &mut Obs) -> CaseResult {
     let sz = size_of_sel(c.size);
     // the space as [lo, hi) in bytes
     let (lo, hi): (u128, u128) = match c.space % 3 {
